@@ -16,7 +16,8 @@ RULE = ("Hypothesis draws an environment, a differentiable scalar recipe (litera
         "(distance >= 0.05 from every kink/pole).  Non-trivial = v occurs in e, >= 2 operator nodes and at "
         "least one function, reduction or * / ** node; the non-occurring class is judged for exact 0 and "
         "counted separately."
-        '  Also: wrt may be an equal-by-name freshly created Variable; parameters are updated after differentiation and both the gradient already held and a newly requested one are judged at the new values; nested even powers, tiny/large constants and off-diagonal blocks of symmetric matrices are generated on purpose.')
+        '  Also: wrt may be an equal-by-name freshly created Variable; parameters are updated after differentiation and both the gradient already held and a newly requested one are judged at the new values; nested even powers, tiny/large constants and off-diagonal blocks of symmetric matrices are generated on purpose.'
+        " Also (round 6): an earlier model whose slice views (same derived name and size, other elements) or Parameters (same names, other values) are name-equal to the judged one's is built and differentiated first; points with coordinates exactly zero.")
 BUDGET = {"quick": {"workers": 16, "examples": 900}, "thorough": {"workers": 16, "examples": 8000}}
 ASSUMPTIONS = ["the jet rules are validated against mpmath differentiation at start-up",
                "points within 0.05 of a non-smooth or undefined set are not judged"]
